@@ -323,6 +323,12 @@ def rule_miss_tolerant(ctx: Ctx) -> None:
     P = ctx.prog
     n5 = 0
     for q in ("pipefunc.map._run._get_or_set_cache", f"{CA}.get_result_from_cache", "pipefunc.cache.memoize.decorator.wrapper"):
+        if q not in P.functions and q.endswith(("get_result_from_cache", "_get_or_set_cache")):
+            # a private lookup helper that was inlined into its caller: the pattern is not searched for elsewhere (the recorded finding is
+            # tied to the helper; in the caller it would be the same defect under another name)
+            ctx.add("5-miss-tolerant", q, "", None, f"UNDECIDED: {q.rsplit('.', 1)[-1]} does not exist (inlined?); its lookup is not followed into the caller", key="check-then-get")
+            n5 += 1
+            continue
         f = P.func(q)
         tests = [c for c in ast.walk(f.node) if isinstance(c, ast.Compare) and len(c.ops) == 1 and isinstance(c.ops[0], (ast.In, ast.NotIn)) and norm(c.comparators[0]) == "cache"]
         gets = [c for c in ast.walk(f.node) if isinstance(c, ast.Call) and norm(c.func) == "cache.get"]
@@ -336,6 +342,8 @@ def rule_miss_tolerant(ctx: Ctx) -> None:
                 "`key in cache` followed by `cache.get(key)`: with a shared cache another process can evict the entry in between, and the None returned for the miss is used as the cached result", key="check-then-get")
     ctx.floor("5-miss-tolerant", n5, 3)
     for q in ("pipefunc.map._run._get_or_set_cache", f"{CA}.get_result_from_cache", "pipefunc.cache.memoize.decorator.wrapper"):
+        if q not in P.functions and q.endswith(("get_result_from_cache", "_get_or_set_cache")):
+            continue
         f = P.func(q)
         sites = absence_by_none(f.node, ("cache",))
         ctx.add("5-miss-tolerant", f, sites[0][0] if sites else f.node, not sites, "a hit is decided by membership (or a sentinel), not by the cached value" if not sites else
@@ -349,6 +357,11 @@ def rule_short_circuit(ctx: Ctx) -> None:  # noqa: C901, PLR0915
     d = Defs(run_)
     exe = cfg.nodes(lambda s: any(isinstance(c, ast.Call) and dotted(c.func) == "_execute_func" for part in header_parts(s) for c in ast.walk(part)))
     hit = [s for s in walk_no_nested(run_.node) if isinstance(s, ast.Assign) and isinstance(s.value, ast.Call) and dotted(s.value.func) == "get_result_from_cache"]
+    if exe and not hit and f"{CA}.get_result_from_cache" not in P.functions:
+        # the lookup helper no longer exists (inlined into _run): the hit path is then part of _run's own control flow, which these
+        # obligations do not follow - say so instead of failing the analysis
+        ctx.add("6-short-circuit", run_, run_.node, None, "UNDECIDED: get_result_from_cache does not exist (inlined into Pipeline._run?); the hit path is not recognised in that form", key="hit-returns 0")
+        return
     if not exe or not hit:
         raise AnalysisError("Pipeline._run: _execute_func / get_result_from_cache sites not found")
     flags = [x.id for t in hit[0].targets for x in ast.walk(t) if isinstance(x, ast.Name)]
@@ -360,9 +373,9 @@ def rule_short_circuit(ctx: Ctx) -> None:  # noqa: C901, PLR0915
         ctx.tri("6-short-circuit", run_, cfg.stmt[tests[0]] if tests else run_.node, good, bool(tests) and any(r is True for r in reach),
                 f"a hit (`{flag}`) never reaches _execute_func", f"_execute_func is reachable although `{flag}` is true: a cache hit does not prevent the execution", f"`{flag}` is not tested in a recognised way", key=f"hit-returns {i}")
     grc = hit[0].value
-    lazy_hit = arg(grc, 7, "lazy")
+    lazy_hit = arg(grc, 7, "lazy", d)
     fresh = [c for c in ast.walk(run_.node) if isinstance(c, ast.Call) and dotted(c.func) == "_update_all_results"]
-    lazy_fresh = arg(fresh[-1], 4, "lazy") if fresh else None
+    lazy_fresh = arg(fresh[-1], 4, "lazy", d) if fresh else None
     if lazy_fresh is not None:
         same = lazy_hit is not None and norm(d.resolve(lazy_hit)) == norm(d.resolve(lazy_fresh))
         ctx.tri("6-short-circuit", run_, grc, same, lazy_hit is None or not same, "the hit is routed with the same lazy flag as a fresh result",
@@ -396,8 +409,22 @@ def rule_short_circuit(ctx: Ctx) -> None:  # noqa: C901, PLR0915
     ucfg = ctx.cfg(upc)
     ps = upc.param_names()
     puts = set(ucfg.nodes(lambda s: any(isinstance(c, ast.Call) and isinstance(c.func, ast.Attribute) and c.func.attr == "put" and len(c.args) >= 2 and norm(c.args[0]) == ps[1] and norm(c.args[1]) == ps[2] for part in header_parts(s) for c in ast.walk(part))))
+    if not puts:
+        # the put may be delegated: a call that hands (cache, key, value) to a helper which stores them
+        from ..flow import bind_args
+
+        for s_ in ctx.cg.sites.get(upc.qualname, []):
+            for callee in s_.callees:
+                b = {k: norm(v) for k, v in bind_args(s_.node, callee).items()}
+                inv = {v: k for k, v in b.items()}
+                if ps[1] in inv and ps[2] in inv and any(isinstance(c, ast.Call) and isinstance(c.func, ast.Attribute) and c.func.attr == "put" and len(c.args) >= 2 and norm(c.args[0]) == inv[ps[1]] and norm(c.args[1]) == inv[ps[2]]
+                                                             for c in ast.walk(callee.node)):
+                    n_ = ucfg.node_containing(s_.node)
+                    if n_ is not None:
+                        puts.add(n_)
     ok = bool(puts) and ucfg.must_pass(ENTRY, EXIT, puts, normal_only=True)
-    ctx.add("6-short-circuit", upc, upc.node, ok, "the computed value is stored under its key on every path" if ok else "update_cache has a path that does not store the value under the key", key="update-cache")
+    ctx.tri("6-short-circuit", upc, upc.node, ok, bool(puts) and not ok, "the computed value is stored under its key on every path", "update_cache has a path that does not store the value under the key",
+            "how update_cache stores the value is not recognised", key="update-cache")
 
 
 def check(ctx: Ctx) -> None:
